@@ -391,6 +391,10 @@ class H1Server(TimerMixin, Peer):
                 or plan["status"] == 101:
             self.tunnel = True
             self.tunnel_start(end)
+            tl = end
+            for seg in plan.get("tunnel_late", ()):
+                tl += plan.get("tunnel_gap", 0.01)
+                self.at(tl, lambda tt, seg=seg: (None if self.closed else self.wire.push(tt, seg)))
             if plan.get("tunnel_close"):
                 self.at(end, lambda tt: self._close(tt))
         elif closing:
